@@ -1,33 +1,36 @@
 (* conv.ml — conversions between OCaml values and the extracted Coq numbers, and the
    token syntax shared with the Rust harness. *)
-open Model
+open BinNums
+open Datatypes
+module L = Stdlib.List
+module Str_ = Stdlib.String
 
 let rec pos_of_z (z : Z.t) : positive =
-  if Z.equal z Z.one then XH
-  else if Z.is_even z then XO (pos_of_z (Z.shift_right z 1))
-  else XI (pos_of_z (Z.shift_right z 1))
+  if Z.equal z Z.one then Coq_xH
+  else if Z.is_even z then Coq_xO (pos_of_z (Z.shift_right z 1))
+  else Coq_xI (pos_of_z (Z.shift_right z 1))
 
-let n_of_z (z : Z.t) : n = if Z.sign z <= 0 then N0 else Npos (pos_of_z z)
-let n_of_int (i : int) : n = n_of_z (Z.of_int i)
-let n_of_string (s : string) : n = n_of_z (Z.of_string s)
+let n_of_z (z : Z.t) : coq_N = if Z.sign z <= 0 then N0 else Npos (pos_of_z z)
+let n_of_int (i : int) : coq_N = n_of_z (Z.of_int i)
+let n_of_string (s : string) : coq_N = n_of_z (Z.of_string s)
 
 let rec z_of_pos (p : positive) : Z.t =
   match p with
-  | XH -> Z.one
-  | XO q -> Z.shift_left (z_of_pos q) 1
-  | XI q -> Z.succ (Z.shift_left (z_of_pos q) 1)
+  | Coq_xH -> Z.one
+  | Coq_xO q -> Z.shift_left (z_of_pos q) 1
+  | Coq_xI q -> Z.succ (Z.shift_left (z_of_pos q) 1)
 
-let z_of_n (x : n) : Z.t = match x with N0 -> Z.zero | Npos p -> z_of_pos p
-let int_of_n (x : n) : int = Z.to_int (z_of_n x)
-let string_of_n (x : n) : string = Z.to_string (z_of_n x)
+let z_of_n (x : coq_N) : Z.t = match x with N0 -> Z.zero | Npos p -> z_of_pos p
+let int_of_n (x : coq_N) : int = Z.to_int (z_of_n x)
+let string_of_n (x : coq_N) : string = Z.to_string (z_of_n x)
 
 let rec nat_of_int (i : int) : nat = if i <= 0 then O else S (nat_of_int (i - 1))
 let rec int_of_nat (x : nat) : int = match x with O -> 0 | S k -> 1 + int_of_nat k
 
 (* byte tables so that converting a byte is a lookup *)
-let byte_tab : n array = Array.init 256 n_of_int
+let byte_tab : coq_N array = Array.init 256 n_of_int
 
-let bytes_of_string (s : string) : n list =
+let bytes_of_string (s : string) : coq_N list =
   let r = ref [] in
   for i = String.length s - 1 downto 0 do r := byte_tab.(Char.code s.[i]) :: !r done; !r
 
@@ -39,15 +42,15 @@ let unhex (s : string) : string =
   if s = "-" then "" else
   String.init (String.length s / 2) (fun i -> Char.chr (16 * hexdigit s.[2*i] + hexdigit s.[2*i+1]))
 
-let hex_of_bytes (l : n list) : string =
+let hex_of_bytes (l : coq_N list) : string =
   if l = [] then "-" else
-  String.concat "" (List.map (fun b -> Printf.sprintf "%02x" (int_of_n b)) l)
+  String.concat "" (L.map (fun b -> Printf.sprintf "%02x" (int_of_n b)) l)
 
 (* compact byte-string syntax: segments separated by ',' : h<hex> | z<count> | r<byte>x<count> *)
 let spec_to_string (spec : string) : string =
   if spec = "-" then "" else
   let b = Buffer.create 4096 in
-  List.iter (fun seg ->
+  L.iter (fun seg ->
     let k = seg.[0] and rest = String.sub seg 1 (String.length seg - 1) in
     match k with
     | 'h' -> Buffer.add_string b (unhex rest)
@@ -58,11 +61,11 @@ let spec_to_string (spec : string) : string =
     | _ -> failwith "spec") (String.split_on_char ',' spec);
   Buffer.contents b
 
-let spec_to_bytes (spec : string) : n list = bytes_of_string (spec_to_string spec)
+let spec_to_bytes (spec : string) : coq_N list = bytes_of_string (spec_to_string spec)
 
-let fnv (l : n list) : string =
+let fnv (l : coq_N list) : string =
   let h = ref (Z.of_string "0xcbf29ce484222325") in
   let m = Z.of_string "0x100000001b3" and mask = Z.pred (Z.shift_left Z.one 64) in
   let k = ref 0 in
-  List.iter (fun b -> incr k; h := Z.logand (Z.mul (Z.logxor !h (z_of_n b)) m) mask) l;
+  L.iter (fun b -> incr k; h := Z.logand (Z.mul (Z.logxor !h (z_of_n b)) m) mask) l;
   Printf.sprintf "%d:%016s" !k (Z.format "%x" !h) |> String.map (fun c -> if c = ' ' then '0' else c)
